@@ -26,6 +26,24 @@ func NewKeyGenerator(params ParameterProvider) *KeyGenerator {
 	}
 }
 
+// ShallowCopy creates a shallow copy of this [KeyGenerator] in which all the read-only data-structures are
+// shared with the receiver and the temporary buffers are reallocated. The receiver and the returned
+// [KeyGenerator] can be used concurrently. (Without this method the one promoted from the embedded
+// [Encryptor] would return an [Encryptor], which cannot generate keys.)
+func (kgen KeyGenerator) ShallowCopy() *KeyGenerator {
+	return &KeyGenerator{
+		Encryptor: kgen.Encryptor.ShallowCopy(),
+		bufSkIn:   kgen.params.RingQ().NewPoly(),
+		bufSkOut:  kgen.params.RingQP().NewPoly(),
+	}
+}
+
+// WithPRNG returns a [KeyGenerator] that draws its uniform polynomials from prng and is otherwise
+// this one (it shares its buffers: the two cannot be used concurrently).
+func (kgen KeyGenerator) WithPRNG(prng sampling.PRNG) *KeyGenerator {
+	return &KeyGenerator{Encryptor: kgen.Encryptor.WithPRNG(prng), bufSkIn: kgen.bufSkIn, bufSkOut: kgen.bufSkOut}
+}
+
 // GenSecretKeyNew generates a new [SecretKey].
 // Distribution is set according to [rlwe.Parameters.HammingWeight].
 func (kgen KeyGenerator) GenSecretKeyNew() (sk *SecretKey) {
